@@ -40,7 +40,7 @@ func (e *Engine) verifyFunc(key string) (res *FuncResult) {
 	x := &Exec{
 		eng: e, fn: fn, spec: spec, decls: NewDecls(), baseArrays: map[string]Sort{},
 		siteCount: map[string]int{}, maxPaths: 6000, assumptions: map[string]bool{},
-		strlits: map[string]Term{}, tags: map[string]int{}, inlined: map[string]bool{}, usedSpecs: map[string]bool{},
+		strlits: map[string]Term{}, tags: map[string]int{}, inlined: map[string]bool{}, usedSpecs: map[string]bool{}, leaf: map[string]Comp{},
 	}
 	res.Decls = x.decls
 	defer func() {
@@ -399,6 +399,7 @@ func (x *Exec) loopEnv(st *State, li *loopInfo, phiVals map[string]Val) *Env {
 					if iv, ok := fr.locals[nx.Iter]; ok && iv.Iter != nil {
 						if it, ok := st.iters[iv.Iter.ID]; ok && x.nextInLoopHeader(li, nx) {
 							vars["V"] = Val{Typ: setType, C: []Term{it.Visited}}
+							vars["N"] = intVal(it.Count)
 						}
 					}
 				}
@@ -474,6 +475,7 @@ func (x *Exec) loopEnter(st *State, li *loopInfo, from *ssa.BasicBlock) {
 	// dry run to discover the arrays the body writes
 	dry := st.clone()
 	dry.dryWrites = map[string]bool{}
+	dry.dryFreshFrom = x.nfresh
 	dry.inLoop[li.ord] = true
 	dfr := dry.top()
 	dfr.prev, dfr.block, dfr.pc = from, li.header, 0
@@ -500,15 +502,29 @@ func (x *Exec) loopEnter(st *State, li *loopInfo, from *ssa.BasicBlock) {
 				continue
 			}
 		}
-		st.heapHavoc(name, s)
+		before := st.heapGet(name, s)
+		after := st.heapHavoc(name, s)
+		if !writes[name] {
+			// every write in the body goes to an object allocated in the body:
+			// objects that existed at loop entry are untouched
+			i := Term{"i!lf", SInt}
+			st.assume(Forall([]Term{i}, Implies(And(Ge(i, TZero), Le(i, st.alloc)), Eq(Select(after, i), Select(before, i)))))
+		}
 	}
 	na := st.fresh("alloc", SInt)
 	st.assume(Ge(na, st.alloc))
 	st.alloc = na
+	st.flushAxioms()
 	st.statics = map[string]Val{}
 	for _, id := range x.loopIters(st, li) {
 		it := *st.iters[id]
 		it.Visited = st.fresh("V", ArrSort(SBool))
+		it.Count = st.fresh("N", SInt)
+		st.assume(Ge(it.Count, TZero))
+		mn := regionOf(it.Map)
+		if writes["mapdom:"+mn] {
+			it.MapWritten = true
+		}
 		st.iters[id] = &it
 	}
 	phiVals = map[string]Val{}
